@@ -15,7 +15,7 @@ BUILTIN_NAMES = {
 DSL_NAMES = {
     "is_int", "is_bool", "is_intlike", "is_float", "is_num", "is_str", "is_none", "implies", "iff", "forall_range",
     "exists_range", "forall_in", "type_is", "pow2", "bit", "same", "old", "fresh", "has_key", "dict_lookup",
-    "seq_eq", "is_callable", "str_len", "range_len", "singleton", "forall_keys",
+    "seq_eq", "is_callable", "str_len", "range_len", "singleton", "forall_keys", "iter_pos", "iter_seq", "is_iterator",
 }
 
 
@@ -248,6 +248,10 @@ def seq_view(eng, v):
         if sc is not None and isinstance(sc, ClassInfo):
             return _iter_object(eng, v, sc)
         t = v.t
+        wl = run.world_lists.get(t.get_id())
+        if wl is not None:
+            arr = wl["arr"]
+            return SeqView(wl["len"], lambda i, arr=arr: tv_val(z3.Select(arr, i)))
         # frozen-world value: list/tuple/deque -> elements; dict -> keys; repo objects with __iter__ handled by caller
         isd = z3.simplify(eng.isinstance_expr(t, [eng.ct.ext["dict"]]))
         if z3.is_true(isd) or (not z3.is_false(isd) and not run.quick_feasible(z3.Not(isd))):
@@ -909,6 +913,13 @@ def getitem(eng, base, idx, node, frame):
     if sc is not None and isinstance(sc, ClassInfo):
         return call_dunder(eng, base, sc, "__getitem__", [idx], node, frame)
     t = base.t
+    wl = run.world_lists.get(t.get_id())
+    if wl is not None:
+        # a frozen-world list this activation has mutated (it is in the modifies clause)
+        i = eng.to_tv(idx).as_int()
+        eng.implicit_raise(z3.Or(i < -wl["len"], i >= wl["len"]), "IndexError", node, "list index")
+        j = i if _nonneg(eng, i) else z3.If(i < 0, i + wl["len"], i)
+        return tv_val(z3.Select(wl["arr"], j))
     # unknown class: repo classes with __getitem__, dicts, sequences
     cands = []
     groups = {}
@@ -1994,6 +2005,17 @@ def call_builtin(eng, name, args, kwargs, node, frame):
             v = it.view.nth(it.pos)
             it.pos = it.pos + 1
             return v
+        if isinstance(it, TV) and it.sort == "val":
+            # an iterator object of the frozen world: fields @it_seq (the underlying sequence) and @it_pos
+            seq = eng.read_field(it, "@it_seq")
+            pos = eng.read_field(it, "@it_pos")
+            ln = S.seq_len(seq.val())
+            eng.run.assume(ln >= 0)
+            p_ = S.simp_iv(pos.val())
+            eng.implicit_raise(z3.Not(z3.And(0 <= p_, p_ < ln)), "StopIteration", node, "next() on an exhausted iterator")
+            v = tv_val(S.seq_nth(seq.val(), p_))
+            eng.set_attr(it, "@it_pos", tv_int(p_ + 1), node, frame)
+            return v
         raise _U("next on non-iterator")
     if name == "type":
         v = eng.to_tv(args[0])
@@ -2345,6 +2367,12 @@ def call_dsl(eng, name, args, kwargs, node, frame):
         member = set_view(eng, st)
         y = z3.Const(run.fresh_name("sy"), S.Val)
         return tv_bool(z3.ForAll([y], member(y) == (y == x.val())))
+    if name == "iter_pos":
+        return tv_int(S.simp_iv(eng.read_field(a[0], "@it_pos").val()))
+    if name == "iter_seq":
+        return eng.read_field(a[0], "@it_seq")
+    if name == "is_iterator":
+        return tv_bool(z3.And(S.is_VObj(a[0].val()), S.is_VInt(eng.read_field(a[0], "@it_pos").val())))
     if name == "str_len":
         return tv_int(z3.Length(a[0].as_str()))
     raise _U(f"dsl helper {name}")
